@@ -93,9 +93,17 @@ pub fn c18(out: &mut Vec<String>, rng: &mut Rng, tier: &str) {
     // levels that differ only far below 1 ulp of 1/2 .. 1 (tiny levels) or by one or two ulps (next to 1 and inside [1/2, 1))
     let u = f64::EPSILON / 2.0;
     for l in [1e-300, 1e-20, 1e-17, 1.1e-16, 1.0 - 3.0 * u, 1.0 - 4.0 * u, 1.0 - 5.0 * u, 0.75, 0.75 + 2.0 * u, 0.75 + 4.0 * u] {
-        confs.push(Confidence::new_two_sided(l));
-        confs.push(Confidence::new_upper(l));
-        confs.push(Confidence::new_lower(l));
+        // (the constructors themselves are probed, guarded, by the `new` lines above; here a panic only loses the value)
+        for k in 0..3 {
+            let c = std::panic::catch_unwind(|| match k {
+                0 => Confidence::new_two_sided(l),
+                1 => Confidence::new_upper(l),
+                _ => Confidence::new_lower(l),
+            });
+            if let Ok(c) = c {
+                confs.push(c);
+            }
+        }
     }
     for c in &confs {
         out.push(format!(
